@@ -1135,7 +1135,8 @@ class Interp:
                         carried[n] = Rat.const(0)   # accumulate the per-iteration delta
                     self.env[n] = carried[n]
                 elif _is_cond(pre[n]):
-                    self.env[n] = ('truth', Rat.sym('%s~loop%d' % (n, self.fresh)))
+                    carried[n] = Rat.sym('%s~loop%d' % (n, self.fresh))
+                    self.env[n] = ('truth', carried[n])
         self.loops.append(loop)
         if not hasattr(self, 'cont_stack'):
             self.cont_stack = []
@@ -1182,9 +1183,13 @@ class Interp:
             if n in accs or not isinstance(symv, Rat):
                 continue
             post = self.env.get(n)
+            if _is_cond(post):
+                post = self.as_scalar(post)      # boolean flags: bool(cond); unchanged == bool(truth(phi))
             okv = isinstance(post, Rat)
             for g, envc in reversed(conts):
                 vc = envc.get(n)
+                if _is_cond(vc):
+                    vc = self.as_scalar(vc)
                 extra = g[gdepth:]
                 if not isinstance(vc, Rat) or not extra:
                     okv = False
